@@ -342,7 +342,7 @@ impl Source {
 
     /// The build dependencies of the package.
     pub fn build_depends(&self) -> Option<Relations> {
-        self.0.get("Build-Depends").map(|s| s.parse().unwrap())
+        self.0.get("Build-Depends").map(|s| Relations::parse_relaxed(&s, true).0)
     }
 
     /// Set the Build-Depends field
@@ -354,31 +354,31 @@ impl Source {
     pub fn build_depends_indep(&self) -> Option<Relations> {
         self.0
             .get("Build-Depends-Indep")
-            .map(|s| s.parse().unwrap())
+            .map(|s| Relations::parse_relaxed(&s, true).0)
     }
 
     /// Return the Build-Depends-Arch field
     pub fn build_depends_arch(&self) -> Option<Relations> {
-        self.0.get("Build-Depends-Arch").map(|s| s.parse().unwrap())
+        self.0.get("Build-Depends-Arch").map(|s| Relations::parse_relaxed(&s, true).0)
     }
 
     /// The build conflicts of the package.
     pub fn build_conflicts(&self) -> Option<Relations> {
-        self.0.get("Build-Conflicts").map(|s| s.parse().unwrap())
+        self.0.get("Build-Conflicts").map(|s| Relations::parse_relaxed(&s, true).0)
     }
 
     /// Return the Build-Conflicts-Indep field
     pub fn build_conflicts_indep(&self) -> Option<Relations> {
         self.0
             .get("Build-Conflicts-Indep")
-            .map(|s| s.parse().unwrap())
+            .map(|s| Relations::parse_relaxed(&s, true).0)
     }
 
     /// Return the Build-Conflicts-Arch field
     pub fn build_conflicts_arch(&self) -> Option<Relations> {
         self.0
             .get("Build-Conflicts-Arch")
-            .map(|s| s.parse().unwrap())
+            .map(|s| Relations::parse_relaxed(&s, true).0)
     }
 
     /// Return the standards version
@@ -724,7 +724,7 @@ impl Binary {
 
     /// The dependencies of the package.
     pub fn depends(&self) -> Option<Relations> {
-        self.0.get("Depends").map(|s| s.parse().unwrap())
+        self.0.get("Depends").map(|s| Relations::parse_relaxed(&s, true).0)
     }
 
     /// Set the Depends field
@@ -738,7 +738,7 @@ impl Binary {
 
     /// The package that this package recommends
     pub fn recommends(&self) -> Option<Relations> {
-        self.0.get("Recommends").map(|s| s.parse().unwrap())
+        self.0.get("Recommends").map(|s| Relations::parse_relaxed(&s, true).0)
     }
 
     /// Set the Recommends field
@@ -752,7 +752,7 @@ impl Binary {
 
     /// Packages that this package suggests
     pub fn suggests(&self) -> Option<Relations> {
-        self.0.get("Suggests").map(|s| s.parse().unwrap())
+        self.0.get("Suggests").map(|s| Relations::parse_relaxed(&s, true).0)
     }
 
     /// Set the Suggests field
@@ -766,7 +766,7 @@ impl Binary {
 
     /// The package that this package enhances
     pub fn enhances(&self) -> Option<Relations> {
-        self.0.get("Enhances").map(|s| s.parse().unwrap())
+        self.0.get("Enhances").map(|s| Relations::parse_relaxed(&s, true).0)
     }
 
     /// Set the Enhances field
@@ -780,7 +780,7 @@ impl Binary {
 
     /// The package that this package pre-depends on
     pub fn pre_depends(&self) -> Option<Relations> {
-        self.0.get("Pre-Depends").map(|s| s.parse().unwrap())
+        self.0.get("Pre-Depends").map(|s| Relations::parse_relaxed(&s, true).0)
     }
 
     /// Set the Pre-Depends field
@@ -794,7 +794,7 @@ impl Binary {
 
     /// The package that this package breaks
     pub fn breaks(&self) -> Option<Relations> {
-        self.0.get("Breaks").map(|s| s.parse().unwrap())
+        self.0.get("Breaks").map(|s| Relations::parse_relaxed(&s, true).0)
     }
 
     /// Set the Breaks field
@@ -808,7 +808,7 @@ impl Binary {
 
     /// The package that this package conflicts with
     pub fn conflicts(&self) -> Option<Relations> {
-        self.0.get("Conflicts").map(|s| s.parse().unwrap())
+        self.0.get("Conflicts").map(|s| Relations::parse_relaxed(&s, true).0)
     }
 
     /// Set the Conflicts field
@@ -822,7 +822,7 @@ impl Binary {
 
     /// The package that this package replaces
     pub fn replaces(&self) -> Option<Relations> {
-        self.0.get("Replaces").map(|s| s.parse().unwrap())
+        self.0.get("Replaces").map(|s| Relations::parse_relaxed(&s, true).0)
     }
 
     /// Set the Replaces field
@@ -836,7 +836,7 @@ impl Binary {
 
     /// Return the Provides field
     pub fn provides(&self) -> Option<Relations> {
-        self.0.get("Provides").map(|s| s.parse().unwrap())
+        self.0.get("Provides").map(|s| Relations::parse_relaxed(&s, true).0)
     }
 
     /// Set the Provides field
@@ -850,7 +850,7 @@ impl Binary {
 
     /// Return the Built-Using field
     pub fn built_using(&self) -> Option<Relations> {
-        self.0.get("Built-Using").map(|s| s.parse().unwrap())
+        self.0.get("Built-Using").map(|s| Relations::parse_relaxed(&s, true).0)
     }
 
     /// Set the Built-Using field
